@@ -129,10 +129,23 @@ class VnmrJ:
     def draw(self, rng):
         nblocks = rng.choice([1, 1, 2, 3, 5])
         npts = 2 * rng.randint(2, 7)
-        return {"nblocks": nblocks, "np": npts, "float": rng.random() < 0.5}
+        c = {"nblocks": nblocks, "np": npts, "float": rng.random() < 0.5}
+        if nblocks >= 2 and rng.random() < 0.5:
+            c["array"] = self.named_array(rng, nblocks)
+        return c
+
+    @staticmethod
+    def named_array(rng, n):
+        """an experiment arrayed over a NAMED real parameter (procpar: array = "d2", d2 = n values in acquisition order)"""
+        vals = rng.sample([0.5, 0.1, 2.0, 0.25, 4.0, 1.5, 8.0], n)
+        return {"name": rng.choice(["d2", "pw", "tpwr"]), "values": vals}
 
     def systematic(self, rng):
-        return [{"nblocks": nb, "np": 2 * rng.randint(2, 7), "float": fl} for nb in (1, 2, 3) for fl in (False, True)]
+        out = [{"nblocks": nb, "np": 2 * rng.randint(2, 7), "float": fl} for nb in (1, 2, 3) for fl in (False, True)]
+        # every array style once: unnamed (arraystart/stop/delta) above, named over a real parameter here
+        for nb in (2, 3, 5):
+            out.append({"nblocks": nb, "np": 2 * rng.randint(2, 7), "float": bool(nb % 2), "array": self.named_array(rng, nb)})
+        return out
 
     def layout(self, c):
         return layout_json(32, 28, 0, 8, c["np"] // 2, [c["nblocks"]], [1, 0])
@@ -164,10 +177,14 @@ class VnmrJ:
         def par(name, val, basic=1):
             v = ('1 "%s"' % val) if basic == 2 else ("1 %s" % val)
             return "%s 1 %d 1e9 -1e9 0 2 1 0 1 64\n%s\n0 \n" % (name, basic, v)
+        arr = c.get("array")
         with open(os.path.join(p, "procpar"), "w") as f:
             f.write(par("H1reffrq", 400.0) + par("sw", 4000.0) + par("np", c["np"]) + par("arraydim", c["nblocks"]) +
-                    par("array", "", 2) + par("arraystart", 0) + par("arraystop", c["nblocks"] - 1) + par("arraydelta", 1) + par("nt", 4) +
+                    par("array", arr["name"] if arr else "", 2) + par("arraystart", 0) + par("arraystop", c["nblocks"] - 1) + par("arraydelta", 1) + par("nt", 4) +
                     par("d1", 1.5) + par("temp", 25.0))
+            if arr:
+                # a multi-valued real parameter: "<count> v1 v2 …" on the value line
+                f.write("%s 1 1 1e9 -1e9 0 2 1 0 1 64\n%d %s\n0 \n" % (arr["name"], len(arr["values"]), " ".join(repr(v) for v in arr["values"])))
         return p
 
     def expect(self, c, raw):
@@ -175,6 +192,8 @@ class VnmrJ:
         t = np.arange(c["np"] // 2) / 4000.0
         if c["nblocks"] == 1:
             return v.reshape(-1), ["t2"], [t]
+        if c.get("array"):
+            return v, ["t2", c["array"]["name"]], [t, np.array(c["array"]["values"], dtype=float)]
         return v, ["t2", "t1"], [t, np.arange(0, c["nblocks"], 1.0)]
 
     def perturbed(self, c, change):
